@@ -388,7 +388,7 @@ def run(ctx):
         raise SystemExit(2)
 
     if quick:
-        args = "-seed %d -ndir 500 -nplan 200 -ntrace 3 -tracelen 45 -nfetch 1 -engines pebble,rocksdb,mem -k1 none" % ctx.seed
+        args = "-seed %d -ndir 500 -nplan 200 -ntrace 3 -tracelen 45 -nfetch 0 -engines pebble,rocksdb,mem -k1 none" % ctx.seed
     else:
         args = "-seed %d -ndir 6000 -nplan 1500 -ntrace 14 -tracelen 70 -nfetch 8 -engines pebble,rocksdb,mem -k1 pebble,rocksdb,mem -k1mb 48" % ctx.seed
     runs = []
